@@ -414,7 +414,18 @@ def replay_main(pid, replayers):
     with open(path) as f:
         rec = json.load(f)
     fn = replayers[rec['replayer']]
-    violated, detail = fn(rec)
+    try:
+        violated, detail = fn(rec)
+    except Exception as e:   # noqa
+        # an exception that comes out of the library itself on the counterexample's inputs (valid inputs by construction) is the
+        # failure the counterexample predicts in its bluntest form (e.g. LinAlgError: singular matrix in the bias solver); an
+        # exception raised by the harness alone is a harness problem and propagates
+        import traceback
+        frames = traceback.extract_tb(e.__traceback__)
+        repo = os.path.realpath(os.environ.get('ONSAGER_REPO') or '/repo')
+        if not any(os.path.realpath(f.filename).startswith(os.path.join(repo, 'onsager')) for f in frames):
+            raise
+        violated, detail = True, 'the real code raised %s: %s on the counterexample inputs %s' % (type(e).__name__, str(e)[:200], rec.get('inputs'))
     if violated:
         print('REPRODUCED %s' % detail)
         print('VIOLATION property=%s replay=%s' % (pid, path))
